@@ -628,7 +628,7 @@ class C20(object):
     time_keys = {"steps": "scheduler steps (one per instrumented access, GOMP entry or allocator call)"}
     fault_keys = ["switches", "realloc_moved", "realloc_stay", "alloc", "free", "parallel_runs", "concurrent_caller_runs"]
     tiers = {"quick": {"runs": 40000, "budget_s": 60, "selftest_every": 40, "fresh_selftest": 16},
-             "thorough": {"runs": 3000000, "budget_s": 800, "selftest_every": 400, "fresh_selftest": 32}}
+             "thorough": {"runs": 12000000, "budget_s": 800, "selftest_every": 400, "fresh_selftest": 32}}
     rule = ("one run = (kernel from the pyf, arguments drawn to satisfy its documented preconditions with boundary "
             "emphasis, team 1..32, strategy, allocator knobs incl. tiny initial disjoint-set capacity and moving "
             "realloc) executed twice with complementary garbage in outputs/work/stacks/heap; distinct = distinct "
